@@ -168,7 +168,7 @@ PROPS = {
              "evidence from a quorum through CheckAndProcessAttestedMessages (one scenario through real MsgAddEvidence txs and the real end blocker); corruptions: single/multi-field edits of the call data, wrong signature-prefix length, failed receipt, "
              "re-submission of a used tx, evidence before estimate election; distinct = distinct op text; non-trivial = an attestation attempt reached the action attester",
         trusted_base=["Keccak-256 collision freeness is a pointwise hypothesis; RLP (de)serialisation of tx/receipt by go-ethereum is used as is on both sides", SDK_TRUST],
-        assumptions=["VerifyAgainstTX reads only the call data (destination / chain id / sender of the remote tx are not part of the property)"],
+        assumptions=["VerifyAgainstTX reads only the call data (destination / chain id / sender of the remote tx are not part of the property)", "update-valset / handover / upload call data carries no message id (compass ABI): twin messages of identical content are interchangeable (Props/C07.md finding 6; theorems what_the_calldata_binds, calldata_does_not_identify_the_message)"],
     ),
     "C03": dict(
         lean_modules=["PalomaModel.Props.C03"], gen=["Auth.lean"],
